@@ -493,3 +493,51 @@ func Dump(m *openfgav1.AuthorizationModel, o DumpOpts) string {
 	}
 	return sb.String()
 }
+
+// Rename returns a deep copy of m with every type, relation and condition name mapped through f (kind is "type",
+// "relation" or "condition"). The model's structure is unchanged, so every structural oracle applies to the copy as it does to m.
+func Rename(m *Model, f func(kind, name string) string) *Model {
+	var rw func(r *Rewrite) *Rewrite
+	rw = func(r *Rewrite) *Rewrite {
+		if r == nil {
+			return nil
+		}
+		c := &Rewrite{Kind: r.Kind, NoParen: r.NoParen}
+		if r.Rel != "" {
+			c.Rel = f("relation", r.Rel)
+		}
+		if r.Tupleset != "" {
+			c.Tupleset = f("relation", r.Tupleset)
+		}
+		for _, ch := range r.Ch {
+			c.Ch = append(c.Ch, rw(ch))
+		}
+		return c
+	}
+	out := &Model{Schema: m.Schema, Module: m.Module, Hdr: m.Hdr}
+	for _, t := range m.Types {
+		nt := TypeDef{Name: f("type", t.Name), Extend: t.Extend, Module: t.Module, File: t.File}
+		for _, r := range t.Rels {
+			nr := Relation{Name: f("relation", r.Name), Rw: rw(r.Rw), Module: r.Module, File: r.File}
+			for _, x := range r.Restr {
+				nx := Restriction{Type: f("type", x.Type), Wildcard: x.Wildcard}
+				if x.Relation != "" {
+					nx.Relation = f("relation", x.Relation)
+				}
+				if x.Condition != "" {
+					nx.Condition = f("condition", x.Condition)
+				}
+				nr.Restr = append(nr.Restr, nx)
+			}
+			if r.Restr != nil && nr.Restr == nil {
+				nr.Restr = []Restriction{}
+			}
+			nt.Rels = append(nt.Rels, nr)
+		}
+		out.Types = append(out.Types, nt)
+	}
+	for _, c := range m.Conds {
+		out.Conds = append(out.Conds, Condition{Name: f("condition", c.Name), Params: append([]Param{}, c.Params...), Expr: c.Expr, Module: c.Module, File: c.File})
+	}
+	return out
+}
